@@ -361,7 +361,8 @@ pub struct ScriptOpts {
 pub fn gen_source(ch: &mut Chooser, o: &ScriptOpts, next_id: &mut i64) -> TsSource {
     let replicas = 1 + ch.below(o.max_replicas);
     // A source runs one iteration: several iterations only exist inside loops, where the loop head
-    // synchronises the replicas between rounds (and loops cannot carry timestamps).
+    // synchronises the replicas between rounds (`TsJob::replay_rounds` wraps the stages in `replay`,
+    // whose head stores and replays the timestamped script).
     let iterations = 1 + ch.weighted(&[6, 2, 1]).min(o.max_iterations - 1);
     let repl = match ch.weighted(&[5, 2, 2]) {
         0 => Repl::Unlimited,
